@@ -14,6 +14,7 @@
 
 
 // std
+#include <algorithm>
 #include <limits>
 
 // local
@@ -43,7 +44,8 @@ RayCasting<Scalar, DIM>::RayCasting(GridIndexMapping<Scalar, DIM> * gridIndexMap
   rayTMax_(PointType::Zero()),
   rayTDelta_(PointType::Zero()),
   rayDirection_(PointType::Zero()),
-  rayStep_(Eigen::Matrix<int, DIM, 1>::Zero())
+  rayStep_(Eigen::Matrix<int, DIM, 1>::Zero()),
+  rayRemainingSteps_(Eigen::Matrix<int, DIM, 1>::Zero())
 {
 }
 
@@ -106,25 +108,34 @@ RayCasting<Scalar, DIM>::setEndPoint(const PointType & endPoint)
   rayDirection_ = direction / range;
 
   for (int i = 0; i < static_cast<int>(DIM); ++i) {
-    // compute step direction
-    if (rayDirection_[i] > 0) {
-      rayStep_[i] = 1;
-    } else if (rayDirection_[i] < 0) {
-      rayStep_[i] = -1;
-    } else {
-      rayStep_[i] = 0;
-    }
+    // the ray is a monotone staircase between the origin and end cells: the number
+    // of steps along each axis is the distance between their indexes along this axis
+    int indexesDifference =
+      static_cast<int>(rayEndIndexes_[i]) - static_cast<int>(rayOriginIndexes_[i]);
+    rayRemainingSteps_[i] = std::abs(indexesDifference);
 
-    // compute rayTMax_, tDelta
-    if (rayStep_[i] != 0) {
-      // corner point of voxel (in direction of ray)
-      Scalar voxelBorder = rayOriginCellCenterPosition[i];
-      voxelBorder += (rayStep_[i] * gridIndexMapping_->getCellResolution() * Scalar(0.5));
-      rayTMax_[i] = (voxelBorder - rayOriginPoint_[i]) / rayDirection_[i];
-      rayTDelta_[i] = gridIndexMapping_->getCellResolution() / std::abs(rayDirection_[i]);
-    } else {
-      rayTMax_[i] = std::numeric_limits<Scalar>::max();
+    if (indexesDifference == 0) {
+      // no border crossing along this axis
+      rayStep_[i] = 0;
+      rayTMax_[i] = std::numeric_limits<Scalar>::infinity();
       rayTDelta_[i] = std::numeric_limits<Scalar>::max();
+    } else {
+      rayStep_[i] = indexesDifference > 0 ? 1 : -1;
+      if (rayStep_[i] * rayDirection_[i] > 0) {
+        // corner point of voxel (in direction of ray)
+        Scalar voxelBorder = rayOriginCellCenterPosition[i];
+        voxelBorder += (rayStep_[i] * gridIndexMapping_->getCellResolution() * Scalar(0.5));
+        rayTMax_[i] = std::min(
+          (voxelBorder - rayOriginPoint_[i]) / rayDirection_[i],
+          std::numeric_limits<Scalar>::max());
+        rayTDelta_[i] = std::min(
+          gridIndexMapping_->getCellResolution() / std::abs(rayDirection_[i]),
+          std::numeric_limits<Scalar>::max());
+      } else {
+        // origin and end straddle a border within rounding errors only
+        rayTMax_[i] = 0;
+        rayTDelta_[i] = std::numeric_limits<Scalar>::max();
+      }
     }
   }
 }
@@ -184,6 +195,18 @@ RayCasting<Scalar, DIM>::cast(const PointType & originPoint, const PointType & e
   return cast(endPoint);
 }
 
+//-----------------------------------------------------------------------------
+template<typename Scalar, size_t DIM>
+void RayCasting<Scalar, DIM>::advance(const int & axis)
+{
+  if (--rayRemainingSteps_[axis] <= 0) {
+    // end cell reached along this axis: no more border crossing
+    rayTMax_[axis] = std::numeric_limits<Scalar>::infinity();
+  } else {
+    rayTMax_[axis] += rayTDelta_[axis];
+  }
+}
+
 // TODO(Jean) factoriser en utilisant const expr if
 //-----------------------------------------------------------------------------
 template<>
@@ -193,10 +216,10 @@ void RayCasting<float, 2>::next(CellIndexes & cellIndexes)
   // increment current position
   if (rayTMax_[0] < rayTMax_[1]) {
     cellIndexes[0] += rayStep_[0];
-    rayTMax_[0] += rayTDelta_[0];
+    advance(0);
   } else {
     cellIndexes[1] += rayStep_[1];
-    rayTMax_[1] += rayTDelta_[1];
+    advance(1);
   }
 }
 
@@ -207,10 +230,10 @@ void RayCasting<double, 2>::next(CellIndexes & cellIndexes)
   // increment current position
   if (rayTMax_[0] < rayTMax_[1]) {
     cellIndexes[0] += rayStep_[0];
-    rayTMax_[0] += rayTDelta_[0];
+    advance(0);
   } else {
     cellIndexes[1] += rayStep_[1];
-    rayTMax_[1] += rayTDelta_[1];
+    advance(1);
   }
 }
 
@@ -221,18 +244,18 @@ void RayCasting<float, 3>::next(CellIndexes & cellIndexes)
   if (rayTMax_[0] < rayTMax_[1]) {
     if (rayTMax_[0] < rayTMax_[2]) {
       cellIndexes[0] += rayStep_[0];
-      rayTMax_[0] += rayTDelta_[0];
+      advance(0);
     } else {
       cellIndexes[2] += rayStep_[2];
-      rayTMax_[2] += rayTDelta_[2];
+      advance(2);
     }
   } else {
     if (rayTMax_[1] < rayTMax_[2]) {
       cellIndexes[1] += rayStep_[1];
-      rayTMax_[1] += rayTDelta_[1];
+      advance(1);
     } else {
       cellIndexes[2] += rayStep_[2];
-      rayTMax_[2] += rayTDelta_[2];
+      advance(2);
     }
   }
 }
@@ -244,18 +267,18 @@ void RayCasting<double, 3>::next(CellIndexes & cellIndexes)
   if (rayTMax_[0] < rayTMax_[1]) {
     if (rayTMax_[0] < rayTMax_[2]) {
       cellIndexes[0] += rayStep_[0];
-      rayTMax_[0] += rayTDelta_[0];
+      advance(0);
     } else {
       cellIndexes[2] += rayStep_[2];
-      rayTMax_[2] += rayTDelta_[2];
+      advance(2);
     }
   } else {
     if (rayTMax_[1] < rayTMax_[2]) {
       cellIndexes[1] += rayStep_[1];
-      rayTMax_[1] += rayTDelta_[1];
+      advance(1);
     } else {
       cellIndexes[2] += rayStep_[2];
-      rayTMax_[2] += rayTDelta_[2];
+      advance(2);
     }
   }
 }
